@@ -9,8 +9,9 @@ from framework import PY, REPO, VERIF
 WORKER = os.path.join(VERIF, "lib", "worker.py")
 
 
-def run_batch(items, seed="0", cwd=None, timeout=600, extra=None):
+def run_batch(items, seed="0", cwd=None, timeout=600, extra=None, env_extra=None):
     env = dict(os.environ)
+    env.update(env_extra or {})
     env["PYTHONHASHSEED"] = str(seed)
     env["BB_REPO"] = REPO
     env["PYTHONPATH"] = os.path.join(REPO, "blackbird_python")
@@ -24,5 +25,5 @@ def run_batch(items, seed="0", cwd=None, timeout=600, extra=None):
 def run_many(jobs, workers=16):
     """jobs: list of (items, seed, cwd) -> list of results in order"""
     with ThreadPoolExecutor(max_workers=workers) as ex:
-        futs = [ex.submit(run_batch, it, seed, cwd) for it, seed, cwd in jobs]
+        futs = [ex.submit(run_batch, j[0], j[1], j[2], env_extra=(j[3] if len(j) > 3 else None)) for j in jobs]
         return [f.result() for f in futs]
